@@ -213,20 +213,16 @@ fn main() {
     drop(private);
     let expected = Arc::new(expected);
     let calls = Arc::new(calls);
-    let builder_expected: Vec<String> = (0..nthreads).map(private_builder_work).collect();
-    let builder_expected = Arc::new(builder_expected);
     let mut handles = vec![];
     for t in 0..nthreads {
         let shared = shared.clone();
         let expected = expected.clone();
         let calls = calls.clone();
-        let builder_expected = builder_expected.clone();
         handles.push(std::thread::spawn(move || {
             let mut bad = vec![];
-            let got = private_builder_work(t);
-            if got != builder_expected[t] {
-                bad.push(format!("thread {t}: private DigitString work gave {got:?}, alone it gives {:?}", builder_expected[t]));
-            }
+            // the private builder work is compared after all threads have finished, with what the same
+            // work gives single-threaded (computing that first would warm up any shared helper state)
+            bad.push(format!("\u{1}{t}\u{1}{}", private_builder_work(t)));
             for r in 0..rounds {
                 for k in 0..calls.len() {
                     // each thread walks the calls from a different starting point
@@ -245,6 +241,17 @@ fn main() {
         match h.join() {
             Ok(bad) => {
                 for b in bad {
+                    if let Some(rest) = b.strip_prefix('\u{1}') {
+                        let mut it = rest.splitn(2, '\u{1}');
+                        let t: usize = it.next().and_then(|x| x.parse().ok()).unwrap_or(0);
+                        let got = it.next().unwrap_or("");
+                        let alone = private_builder_work(t);
+                        if got != alone {
+                            println!("MIRI-MISMATCH thread {t}: private DigitString work gave {got:?}, single-threaded it gives {alone:?}");
+                            failed = true;
+                        }
+                        continue;
+                    }
                     println!("MIRI-MISMATCH {b}");
                     failed = true;
                 }
